@@ -138,7 +138,7 @@ def check_pairs(w, rep, tier, only=None, RP="C07.preserve", RA="C07.API"):
                     continue
                 alleq = True
                 for desc, Mb in bs:
-                    v, d = decide_mat(Mb, M, quats)
+                    v, d = decide_by_cases(Mb, M, quats)
                     if v == EQUAL:
                         continue
                     alleq = False
@@ -354,13 +354,13 @@ def check_siblings_and_validity(w, rep):
         # D2 siblings
         ok, ms = guarded(w, rep, "C07.SIB", "SO3Dcm.from_Mrp", lambda: (w.call(w.call(D, "from_Mrp", Xr), "to_Matrix"), w.call(Xr, "to_Matrix")))
         if ok:
-            verdict(rep, "C07.SIB", "SO3Dcm.from_Mrp(r) = SO3Mrp.to_Matrix(r)", ms[0], ms[1], (), w.method_where(D, "from_Mrp")[:2],
+            verdict_by_branches(rep, "C07.SIB", "SO3Dcm.from_Mrp(r) = SO3Mrp.to_Matrix(r)", ms[0], ms[1], (), w.method_where(D, "from_Mrp")[:2],
                     "the DCM built from an MRP is not the MRP's rotation matrix")
-            verdict(rep, "C07.valid", "SO3Dcm.from_Mrp(r) is orthonormal", cm.matmul(ms[0], cm.transpose(ms[0])), eye(3), (), w.method_where(D, "from_Mrp")[:2],
+            verdict_by_branches(rep, "C07.valid", "SO3Dcm.from_Mrp(r) is orthonormal", cm.matmul(ms[0], cm.transpose(ms[0])), eye(3), (), w.method_where(D, "from_Mrp")[:2],
                     "DCM returned by from_Mrp is not orthonormal")
         ok, alt = guarded(w, rep, "C07.SIB", "SO3Dcm.from_Mrp_alternative", lambda: w.call(w.call(D, "from_Mrp_alternative", Xr), "to_Matrix"))
         if ok:
-            verdict(rep, "C07.SIB", "SO3Dcm.from_Mrp_alternative(r) = SO3Mrp.to_Matrix(r)", alt, w.call(Xr, "to_Matrix"), (), w.method_where(D, "from_Mrp_alternative")[:2],
+            verdict_by_branches(rep, "C07.SIB", "SO3Dcm.from_Mrp_alternative(r) = SO3Mrp.to_Matrix(r)", alt, w.call(Xr, "to_Matrix"), (), w.method_where(D, "from_Mrp_alternative")[:2],
                     "from_Mrp_alternative disagrees with the MRP rotation matrix")
         # validity
         ok, qm = guarded(w, rep, "C07.valid", "SO3Quat.from_Mrp", lambda: w.param(w.call(Q, "from_Mrp", Xr)))
